@@ -389,6 +389,11 @@ def main(argv):
             missing = [c["i"] for c in r["cases"] if c["i"] not in r["verdicts"]]
             diffs = [c for c in r["cases"] if r["verdicts"].get(c["i"], 0) != 0]
             known_hits = 0
+            # differing cases whose code says that a predicate of the PROPERTY fails come first; cases where only the
+            # model and the implementation differ on an observable the property does not constrain ("model_only_codes")
+            # are reported as a broken correspondence, not as a failing input
+            mo = set(st.get("model_only_codes", []))
+            diffs.sort(key=lambda c: r["verdicts"][c["i"]] in mo)
             for c in diffs[:5]:
                 case = c["replay"]
                 code = r["verdicts"][c["i"]]
@@ -398,8 +403,12 @@ def main(argv):
                 payload = {"property": prop, "stream": st["name"], "seed": sd, "case": case, "original_case": c["replay"],
                            "verdict_code": code, "what": st["what_fails"], "model_observation": detail,
                            "theorems": proof["theorems"]}
+                if code in mo:
+                    payload["what"] = ("correspondence %s no longer checks: the model and the implementation differ (code %d) on an observable the property "
+                                       "does not constrain, while the property's own predicates held on this input; the theorems are no longer tied "
+                                       "to this code. Codes: " % (st["name"], code)) + st["what_fails"]
                 path = write_replay(prop, sd, "%s-%d" % (st["name"], c["i"]), payload)
-                violations.append((path, True, "%s case %d code %d" % (st["name"], c["i"], code)))
+                violations.append((path, code not in mo, "%s case %d code %d" % (st["name"], c["i"], code)))
             if missing or r["errors"]:
                 path = write_replay(prop, sd, st["name"] + "-model-eval", {"property": prop, "what": "model evaluation failed for %d cases of correspondence stream %s" % (len(missing), st["name"]), "errors": r["errors"][:3]})
                 violations.append((path, False, "model evaluation failed"))
